@@ -19,7 +19,9 @@ let handle line = match words line with
     if v <> spec then report "generated-kernel-differs-from-specification" line
     (* the end-position quirk (known finding): the harness classifies by the last token, the binary sees full_moon's end;
        there the kernel's verdict is only checked against the bytes: not formatted means unchanged *)
-    else if cls = "outside-endquirk" then (if v <> FormatNode_Normal && same <> "1" then report "binary-differs-from-generated-kernel" line)
+    else if cls = "outside-endquirk" then
+      (* itself the quirk statement (fe < e), or one that contains it and changes with it: only the former is judged *)
+      (if fe < e && v <> FormatNode_Normal && same <> "1" then report "binary-differs-from-generated-kernel" line)
     else if (v = FormatNode_Normal) <> starts cls "inrange" then report "binary-differs-from-generated-kernel" line
     else if same <> "1" && (cls = "inrange" || cls = "outside") then report "statement-text" line
   | "STATS" :: _ -> print_endline line
